@@ -21,6 +21,9 @@ use std::str::FromStr;
 pub enum Init {
     Parse { text: String },
     Build { paras: Vec<Vec<(String, String)>> },
+    /// paragraphs parsed one by one with Paragraph::from_str (each text holds one paragraph, possibly
+    /// without final newline) and collected into a document with FromIterator<Paragraph>
+    Collect { texts: Vec<String> },
     /// parsed, then rebuilt by wrap_and_sort (a programmatically built tree with reformatted values)
     Rebuilt { text: String, indent: u32, sort: bool },
     Empty,
@@ -143,6 +146,22 @@ fn init_live(init: &Init) -> Result<Live, String> {
         Init::Build { paras } => {
             let doc: Deb822 = paras.iter().map(|p| p.iter().map(|(k, v)| (k.clone(), v.clone())).collect::<Paragraph>()).collect();
             Ok(Live { doc, model: Model::from_paragraphs(paras.clone()), handles: BTreeMap::new(), built: true })
+        }
+        Init::Collect { texts } => {
+            let mut ps = Vec::new();
+            let mut model = Vec::new();
+            for t in texts {
+                let p = Paragraph::from_str(t).map_err(|e| format!("paragraph text does not parse strictly: {e}"))?;
+                let seg = segmenter::segment(t).ok_or("paragraph text not segmentable")?;
+                let want = segmenter::paragraphs(&seg);
+                if want.len() != 1 || want[0] != items_of(&p) {
+                    return Err("reference reading of the paragraph text differs from the implementation's (C03 territory)".into());
+                }
+                model.push(want[0].clone());
+                ps.push(p);
+            }
+            let doc: Deb822 = ps.into_iter().collect();
+            Ok(Live { doc, model: Model::from_paragraphs(model), handles: BTreeMap::new(), built: true })
         }
         Init::Rebuilt { text, indent, sort } => {
             if text.lines().any(|l| l.starts_with('#')) {
@@ -775,6 +794,21 @@ pub fn generate(rng: &mut Rng, tier: Tier, para_foreground: bool) -> Case {
                 .collect();
             Init::Build { paras }
         }
+        4 => {
+            // one-paragraph texts (comment-free, some without final newline) collected into a document
+            let n = 1 + rng.below(3);
+            let texts = (0..n)
+                .map(|_| {
+                    let f2 = text::DocFlags { comments: false, leading_trivia: false, trailing_trivia: false, max_paras: 1, final_newline: rng.chance(1, 2), ..flags.clone() };
+                    let mut t = text::doc(rng, &f2);
+                    if t.trim().is_empty() {
+                        t = "A: 1".to_string();
+                    }
+                    t
+                })
+                .collect();
+            Init::Collect { texts }
+        }
         3 => {
             // wrap_and_sort glues comment lines to whatever follows them (C07, not claimed): rebuilt start
             // states are taken from comment-free documents only
@@ -790,7 +824,7 @@ pub fn generate(rng: &mut Rng, tier: Tier, para_foreground: bool) -> Case {
             None => Model::default(),
         },
         Init::Build { paras } => Model::from_paragraphs(paras.clone()),
-        Init::Rebuilt { .. } => match init_live(&init) {
+        Init::Rebuilt { .. } | Init::Collect { .. } => match init_live(&init) {
             Ok(l) => l.model,
             Err(_) => Model::default(),
         },
@@ -943,6 +977,20 @@ pub fn shrink(c: &Case) -> Vec<Case> {
             out.push(Case { init: Init::Parse { text: text.clone() }, events: c.events.clone() });
             for t in text::shrink_text(text) {
                 out.push(Case { init: Init::Rebuilt { text: t, indent: *indent, sort: *sort }, events: c.events.clone() });
+            }
+        }
+        Init::Collect { texts } => {
+            for i in 0..texts.len() {
+                if texts.len() > 1 {
+                    let mut t = texts.clone();
+                    t.remove(i);
+                    out.push(Case { init: Init::Collect { texts: t }, events: c.events.clone() });
+                }
+                for cand in text::shrink_text(&texts[i]).into_iter().take(30) {
+                    let mut t = texts.clone();
+                    t[i] = cand;
+                    out.push(Case { init: Init::Collect { texts: t }, events: c.events.clone() });
+                }
             }
         }
         Init::Empty => {}
